@@ -39,6 +39,7 @@ class Lab:
         self.log: List[str] = []
         self.block: Dict[str, threading.Event] = {}
         self.entered: Dict[str, threading.Event] = {}
+        self.on_glue: Dict[str, Any] = {}          # tag -> callable run once from inside that glue function
         self.objs: Dict[int, types.ModuleType] = {}
         self.lock = threading.Lock()
 
@@ -53,6 +54,7 @@ class Lab:
         self.log = []
         self.block = {}
         self.entered = {}
+        self.on_glue = {}
         self.objs = {}
         for m, has_mod, has_builtin, mod_raises, builtin_raises in mods:
             obj = types.ModuleType(self.name(m))
@@ -74,6 +76,8 @@ class Lab:
         def glue():
             with self.lock:
                 self.log.append(tag)
+            if tag in self.on_glue:
+                self.on_glue.pop(tag)()
             if tag in self.entered:
                 self.entered[tag].set()
             if tag in self.block:
@@ -197,6 +201,15 @@ class C17(PropCheck):
             k = rng.choice(["mod", "builtin", "both"])
             out.append({"k": "nested", "mods": [[0, rng.random() < 0.5, True, False, False], [1, k in ("mod", "both"), k in ("builtin", "both"), False, False]],
                         "via": rng.choice(["unwrap", "elaborate"])})
+        # a glue function that itself imports something glue-bearing (a plugin, a submodule): the new module appears in
+        # sys.modules while the scan is running, after its snapshot was taken; the next extraction must deal with it
+        for i in range(8 if tier == "quick" else 40):
+            k0 = rng.choice(["mod", "builtin"])
+            k1 = rng.choice(["mod", "builtin", "both"])
+            extra = rng.randint(0, 2)
+            mods = [[0, k0 == "mod", k0 == "builtin", False, False], [1, k1 in ("mod", "both"), k1 in ("builtin", "both"), False, False]]
+            mods += [[2 + j, False, rng.random() < 0.5, False, False] for j in range(extra)]
+            out.append({"k": "glue_imports", "mods": mods, "extra": extra})
         # built-in glue registered for a module that is already loaded (what happens at `import stackscope`)
         for own in (True, False):
             for raises in (False, True):
@@ -244,6 +257,18 @@ class C17(PropCheck):
             return " ".join(lab.log)
         if case["k"] == "nested":
             return self.run_nested(case)
+        if case["k"] == "glue_imports":
+            for j in range(case["extra"]):
+                lab.insert(2 + j)
+            lab.insert(0)
+            tag0 = f"{'mod' if case['mods'][0][1] else 'builtin'}0"
+            lab.on_glue[tag0] = lambda: lab.insert(1)
+            lab.extract()
+            first = list(lab.log)
+            lab.extract()
+            second = list(lab.log)
+            lab.extract()
+            return {"log": list(lab.log), "glue_imports": True, "after_first": first, "after_second": second, "error": None}
         if case["k"] == "late_register":
             return self.run_late_register(case)
         # ---- concurrent ----
@@ -363,6 +388,15 @@ class C17(PropCheck):
             if real["log"] != want:
                 return (f"module loaded before its built-in glue was registered (own glue: {case['own_glue']}): glue calls {real['log']} "
                         f"(at registration: {real['at_registration']}), expected {want}")
+            return None
+        if isinstance(real, dict) and real.get("glue_imports"):
+            _, has_mod, has_builtin, _, _ = case["mods"][1]
+            want = f"{'mod' if has_mod else 'builtin'}1"
+            if want not in real["after_second"]:
+                return (f"module 1 was imported by module 0's glue function during a scan; the next extraction (the first to start "
+                        f"after it appeared) returned without its glue ({want}) having run: log {real['after_second']}")
+            if len([e for e in real["log"] if e.endswith("1") and e.startswith(("mod", "builtin"))]) != 1:
+                return f"glue of module 1: {real['log']} (expected exactly one call of {want})"
             return None
         if isinstance(real, dict) and real.get("nested_case"):
             if real.get("error"):
